@@ -22,8 +22,9 @@ import time
 import traceback
 
 VERIF = os.path.dirname(os.path.dirname(os.path.dirname(os.path.abspath(__file__))))
-EVIDENCE_DIR = os.path.join(VERIF, "evidence")
-REPLAY_DIR = os.path.join(VERIF, "replays")
+# the two overrides are used only when evaluating seeded changes, so that the committed evidence is not clobbered
+EVIDENCE_DIR = os.environ.get("VERIF_EVIDENCE_DIR") or os.path.join(VERIF, "evidence")
+REPLAY_DIR = os.environ.get("VERIF_REPLAY_DIR") or os.path.join(VERIF, "replays")
 FINDINGS_FILE = os.path.join(VERIF, "known_findings.json")
 T_IMPORT = time.time()
 NPROC = int(os.environ.get("VERIF_NPROC", str(min(16, os.cpu_count() or 1))))
